@@ -422,7 +422,16 @@ pub fn text_size(t: &Type, limit: i32) -> Result<i32, ()> {
         }
         Future => 6,
         Unknown => 7,
-        Class(..) => unreachable!(),
+        Class(args, t) => {
+            let mut cnt = 6;
+            let mut limit = limit - cnt;
+            for arg in args {
+                cnt += text_size(arg, limit)?;
+                limit -= cnt;
+            }
+            cnt += text_size(t, limit)?;
+            cnt
+        }
     };
     if cost > limit {
         Err(())
